@@ -20,3 +20,10 @@ package bfe_basic
 //@   props C26
 //@   note carrier of the package invariant for C26 (the hop-by-hop table); only its panic-freedom is checked here
 //@   requires request != nil
+
+//@ func (*Session).TrustSource
+//@   props C29
+//@   nopanic
+//@   requires s != nil
+//@   modifies nothing
+//@   ensures result0 <==> s.isTrustSource == SessionTrustSource
